@@ -10,47 +10,53 @@ characteristic reset.  Helper lemmas: `Lemmas/TxnPool.lean`.
 namespace SaVerif.Props.C24
 open SaVerif.Txn
 
+theorem init_inv (rs : ResetStyle) (hrs : rs ≠ .none) (ls : Listener) (eo : List Bool) :
+    Inv (Conn.connect (DB.init rs ls eo)) :=
+  connect_inv (fun r hr => by simp [DB.init] at hr) hrs (heldIso_clean rfl rfl)
+
 /-- **checkin_clean**: after EVERY operation sequence — any interleaving of begin,
     begin_nested, statements, commit, rollback, handle and context-manager operations,
-    AUTOCOMMIT switches, explicit invalidation, armed DBAPI faults (error or disconnect at
-    cursor(), execute(), commit(), rollback(), also during the reset itself), close(),
-    garbage collection without close(), new checkouts and extra pooled connections — every
-    DBAPI connection idle in the pool has no transaction in progress, no savepoints and the
-    default isolation level, provided reset_on_return is not disabled. -/
-theorem checkin_clean (rs : ResetStyle) (hrs : rs ≠ .none) (ops : List Op) :
-    PoolClean ((Conn.connect (DB.init rs)).run ops).db := by
-  have h0 : Inv (Conn.connect (DB.init rs)) :=
-    connect_inv (fun r hr => by simp [DB.init] at hr) hrs
-  exact (run_inv ops _ h0).2.1
+    execution_options calls in any number and order (AUTOCOMMIT, READ UNCOMMITTED,
+    logging_token, both in one call, unrelated options), engine-level options, explicit
+    invalidation, armed DBAPI faults (error or disconnect at cursor(), execute(), commit(),
+    rollback(), also during the reset itself), close(), garbage collection without close(),
+    new checkouts and extra pooled connections — every DBAPI connection idle in the pool has
+    no transaction in progress, no savepoints, the default isolation level and no pending
+    reset callbacks, provided reset_on_return is not disabled. -/
+theorem checkin_clean (rs : ResetStyle) (hrs : rs ≠ .none) (ls : Listener) (eo : List Bool)
+    (ops : List Op) : PoolClean ((Conn.connect (DB.init rs ls eo)).run ops).db :=
+  (run_inv ops _ (init_inv rs hrs ls eo)).2.1
 
 /-- the same from any state satisfying the invariant (e.g. a pool that already holds
     connections) -/
 theorem checkin_clean_from (c : Conn) (hi : Inv c) (ops : List Op) : PoolClean (c.run ops).db :=
   (run_inv ops c hi).2.1
 
-/-- **handed_out_clean**: whatever happened before, the next checkout (`engine.connect()`,
-    the previous Connection being closed, garbage collected or simply dropped) holds a DBAPI
-    connection that sees exactly the committed rows, has no savepoints and is not in
-    AUTOCOMMIT. -/
-theorem handed_out_clean (rs : ResetStyle) (hrs : rs ≠ .none) (ops : List Op) :
-    let c := (((Conn.connect (DB.init rs)).run ops).step .connect).1
-    c.db.raw.working = c.db.committed ∧ c.db.raw.saves = [] ∧ c.db.raw.autocommit = false ∧
-    c.inTransaction = false := by
-  have h0 : Inv (Conn.connect (DB.init rs)) :=
-    connect_inv (fun r hr => by simp [DB.init] at hr) hrs
-  have h1 := gc_inv (run_inv ops _ h0)
-  obtain ⟨a, b, d⟩ := checkout_held_clean _ h1.2.1
-  exact ⟨a, b, d, rfl⟩
+/-- **handed_out_clean**: whatever happened before, the pool hands to the next
+    `engine.connect()` (the previous Connection being closed, garbage collected or simply
+    dropped) a DBAPI connection that sees exactly the committed rows, has no savepoints, is
+    not in AUTOCOMMIT / READ UNCOMMITTED and carries no reset callback of an earlier user;
+    the new Connection is not in a transaction. -/
+theorem handed_out_clean (rs : ResetStyle) (hrs : rs ≠ .none) (ls : Listener) (eo : List Bool)
+    (ops : List Op) :
+    let db := ((Conn.connect (DB.init rs ls eo)).run ops).gc.db
+    db.checkout.raw.working = db.checkout.committed ∧ db.checkout.raw.saves = [] ∧
+    db.checkout.raw.autocommit = false ∧ db.checkout.raw.readUnc = false ∧
+    db.checkout.raw.finalize = [] ∧
+    (((Conn.connect (DB.init rs ls eo)).run ops).step .connect).1.inTransaction = false := by
+  have h1 := gc_inv (run_inv ops _ (init_inv rs hrs ls eo))
+  obtain ⟨a, b, d, e, f⟩ := checkout_held_clean _ h1.2.1
+  exact ⟨a, b, d, e, f, rfl⟩
 
 /-- a transparent reconnect after an invalidation also gets a clean connection -/
 theorem reconnect_clean (c : Conn) (hi : Inv c) (hinv : c.invalidated = true) (ht : c.transaction = none) :
     c.revalidate.2 = .ok ∧
     c.revalidate.1.db.raw.working = c.revalidate.1.db.committed ∧ c.revalidate.1.db.raw.saves = [] ∧
-    c.revalidate.1.db.raw.autocommit = false := by
+    c.revalidate.1.db.raw.autocommit = false ∧ c.revalidate.1.db.raw.readUnc = false := by
   simp only [Conn.invalidated, Bool.and_eq_true, Bool.not_eq_true'] at hinv
-  obtain ⟨a, b, d⟩ := checkout_held_clean _ hi.2.1
+  obtain ⟨a, b, d, e, _⟩ := checkout_held_clean _ hi.2.1
   simp only [Conn.revalidate, hinv.1, hinv.2, ht]
-  exact ⟨rfl, a, b, d⟩
+  exact ⟨rfl, a, b, d, e⟩
 
 /-! ## F7 (fixed by 387ee97): the pre-fix close() breaks the invariant -/
 
@@ -67,7 +73,7 @@ theorem prefix_close_counterexample :
     let c := (Conn.connect (DB.init .rollback)).run [.exec (.ins 1), .arm .commit .err, .commit]
     ¬ PoolClean (closePreFix c).1.db := by
   intro c h
-  have := h { rid := 0, born := 1, working := [1], saves := [], autocommit := false, follows := false }
+  have := h (⟨0, 1, [1], [], false, false, false, []⟩ : Raw)
     (by decide)
   simp at this
 
@@ -75,8 +81,37 @@ theorem prefix_close_counterexample :
     `checkin_clean`, evaluated) -/
 example :
     ((Conn.connect (DB.init .rollback)).run [.exec (.ins 1), .arm .commit .err, .commit, .close]).db.idle
-      = [some { rid := 0, born := 1, working := [], saves := [], autocommit := false, follows := true }] := by
+      = [some (⟨0, 1, [], [], false, true, false, []⟩ : Raw)] := by
   decide
+
+/-! ## the two-registration shape (sensitivity)
+
+`logging_token` first, `isolation_level="AUTOCOMMIT"` second, on one checkout: both calls queue
+their own reset callback, so the isolation level is reset at check-in.  If the second
+registration were dropped (callback queued only when the queue is empty) the connection
+would go back in AUTOCOMMIT — the evaluated example shows the model distinguishes the two. -/
+
+example :
+    (((Conn.connect (DB.init .rollback)).run [.logToken, .autocommit, .exec (.ins 1), .close]).db.idle.map
+      (fun o => o.map (fun r => (r.autocommit, r.finalize)))) = [some (false, [])] := by decide
+example :
+    ((Conn.connect (DB.init .rollback)).run [.logToken, .autocommit]).db.raw.finalize = [false, true] := by
+  decide
+
+/-! ## a BaseException during reset-on-return
+
+`checkin_clean` quantifies over all three fault kinds; this is the interrupt instance: INSERT,
+then the DBAPI's rollback() raises KeyboardInterrupt while the pool resets the connection
+(close(): the interrupt comes out of close(); GC: it is swallowed).  The record is
+invalidated and comes back EMPTY; the next checkout opens a fresh DBAPI connection. -/
+
+example :
+    let c := (Conn.connect (DB.init .rollback)).run [.exec (.ins 1), .rollback, .exec (.ins 2),
+                                                      .commit, .arm .rollback .kbi]
+    (c.step .close).2 = .interrupted ∧ (c.step .close).1.db.idle = [none] ∧
+    (c.step .gc).1.db.idle = [none] ∧
+    (((c.step .close).1.step .connect).1.db.raw.rid, ((c.step .close).1.step .connect).1.db.raw.working)
+      = (1, [2]) := by decide
 
 /-! ## non-vacuity -/
 
@@ -93,7 +128,7 @@ example : (((Conn.connect (DB.init .rollback)).run sampleOps).db.idle.length) = 
 /-- with reset_on_return disabled the statement is false (the hypothesis `rs ≠ .none` is needed) -/
 example : ¬ PoolClean ((Conn.connect (DB.init .none)).run [.exec (.ins 1), .gc]).db := by
   intro h
-  have := h { rid := 0, born := 1, working := [1], saves := [], autocommit := false, follows := false }
+  have := h (⟨0, 1, [1], [], false, false, false, []⟩ : Raw)
     (by decide)
   simp at this
 
